@@ -127,7 +127,7 @@ func genC11(t *rapid.T) c11Case {
 	c := c11Case{}
 	vc := varCase{Format: rapid.SampledFrom([]string{"gb", "gff"}).Draw(t, "format"), Form: "sam"}
 	ao := annoGenOpts{minRef: 20, maxRef: ifThorough(300, 90), maxFeats: ifThorough(6, 4), allowUnnamed: vc.Format == "gff", iupacOutside: true}
-	vc.GFF = gffOpts{SequenceRegion: rapid.Bool().Draw(t, "seqRegion"), WithFasta: true, SpecPhases: rapid.Bool().Draw(t, "specPhases"), SortRows: rapid.Bool().Draw(t, "sortRows")}
+	vc.GFF = gffOpts{SequenceRegion: rapid.Bool().Draw(t, "seqRegion"), WithFasta: true, SpecPhases: rapid.Bool().Draw(t, "specPhases"), SortRows: rapid.Bool().Draw(t, "sortRows"), ParentAttr: rapid.IntRange(0, 2).Draw(t, "parentAttr") == 0}
 	vc.Anno = genAnno(t, ao)
 	vc.Threads = rapid.SampledFrom([]int{1, 1, 2, 4}).Draw(t, "threads")
 	in := genSamInput(t, samGenOpts{maxQueries: 3, maxRecs: 3, allowNoise: true, fixedRef: vc.Anno.Ref, fixedRefName: vc.Anno.RefName})
